@@ -7,7 +7,7 @@ import sysgen
 from c09 import _signal
 from common import Cmat, Cx, R, cfl, fl, max_rel_err
 
-LEAN_MODULES = ["PyomaVerif.Props.C08", "PyomaVerif.Props.C08Pipe", "PyomaVerif.Props.C08Unity", "PyomaVerif.Props.C08Ms"]
+LEAN_MODULES = ["PyomaVerif.Props.C08", "PyomaVerif.Props.C08Pipe", "PyomaVerif.Props.C08Unity", "PyomaVerif.Props.C08Ms", "PyomaVerif.Props.C08Perm"]
 THEOREMS = [
     "PV.C08.C08_gain_hank_mm",
     "PV.C08.C08_gain_hank_R",
@@ -75,6 +75,10 @@ THEOREMS = [
     "PV.C08.C08_ms_gain_preger",
     "PV.C08.C08_ms_gain_sd",
     "PV.C08.C08_ms_gain_fdd_ms",
+    # FDD under a channel permutation, composed to the result of FDD_mpe (Props/C08Perm.lean)
+    "PV.C08.fddOne_perm",
+    "PV.C08.C08_perm_fdd_mpe",
+    "PV.C08.C08_perm_fdd_data",
 ]
 RULE = (
     "metamorphic oracle on the real code: every algorithm class (FDD, EFDD, FSDD, SSIcov[cov_mm, cov_R], SSIdat, pLSCF[per, cor] and "
